@@ -7204,10 +7204,17 @@ class Parser:
 
         if after_dot and isinstance(field, exp.Literal) and field.is_number:
             name = field.name
+            last = None
             if self._is_connected() and self._parse_var(any_token=True):
                 name += self._prev.text
+                last = self._prev
 
-            field = exp.Identifier(this=name, quoted=True).update_positions(field)
+            number = field
+            field = exp.Identifier(this=name, quoted=True).update_positions(number)
+            if last and "start" in number.meta:
+                field.update_positions(
+                    line=last.line, col=last.col, start=number.meta["start"], end=last.end
+                )
 
         return field
 
